@@ -149,7 +149,7 @@ def decide(prop, tier, results, extra, pre, known, work, seed, wall):
 def write_replay(prop, violations, work):
     """One replay file per run; lists every failed obligation, carries verifier output, and - where the unit
     has a replay recipe - the concrete input and the native outcome on the real library."""
-    outdir = os.path.join(VERIF, 'replay_out')
+    outdir = os.path.join(os.environ.get('VERIF_OUT', VERIF), 'replay_out')     # VERIF_OUT: trial runs on a scratch copy of /repo (tools/par_seeds.py) keep their output apart
     os.makedirs(outdir, exist_ok=True)
     items = []
     reproduced = False
@@ -276,7 +276,8 @@ def write_evidence(prop, tier, seed, main, planted, extra, pre, known, violation
     ev = {'property_id': prop, 'tier': tier, 'seed': seed, 'level': level, 'coverage': cov,
           'assumptions': sorted(assumes | set(getattr(mod, 'ASSUMPTIONS', []))),
           'wall_s': round(wall, 1), 'violations': len(violations)}
-    os.makedirs(os.path.join(VERIF, 'evidence'), exist_ok=True)
-    with open(os.path.join(VERIF, 'evidence', prop + '.json'), 'w') as f:
+    evdir = os.path.join(os.environ.get('VERIF_OUT', VERIF), 'evidence')
+    os.makedirs(evdir, exist_ok=True)
+    with open(os.path.join(evdir, prop + '.json'), 'w') as f:
         json.dump(ev, f, indent=1)
     return ev
